@@ -30,8 +30,10 @@ def main(argv):
     while len(cases) < n and tries < 20 * n:
         tries += 1
         c = GB.gen_case(rng)
-        if len(cases) % 4 == 0:
-            c['cfg']['enc'] = c['cfg']['enc']     # keep
+        if len(cases) % 4 != 0:
+            # a file name that is not a C++ identifier is one finding (K8) and hides everything else about the case:
+            # keep it in a quarter of the cases only
+            c['cfg']['file'] = c['cfg']['file'].replace('My.Model', 'MyModel')
         cases.append({'file': c['file'], 'cfg': c['cfg']})
     # make sure a global-namespace encapsulee, an empty interface and a component without ports occur
     cases.append({'file': [['itf', ['IEmpty'], [], []], ['comp', ['G'], [['p', ['IEmpty'], 'provides', False]]]],
@@ -39,14 +41,27 @@ def main(argv):
     cases.append({'file': [['ns', ['N'], [['comp', ['NoPorts'], []]]]],
                   'cfg': {'file': 'NoPorts.dzn', 'enc': ['N', 'NoPorts'], 'sf_prefix': ['Pre'],
                           'ports': {'p': [['w', 'all'], ['w', 'none']], 'r': [['w', 'all'], ['w', 'none']]}}})
+    # multi-client shells with and without a support-file prefix, created and imported facilities, odd event names
+    from checks.c11 import fixed_cases
+    for fc in fixed_cases():
+        cases.append(fc)
+        alt = {'file': fc['file'], 'cfg': dict(fc['cfg'])}
+        alt['cfg']['sf_prefix'] = None if fc['cfg'].get('sf_prefix') else ['Acme', 'Lib']
+        alt['cfg']['fac'] = 'import' if fc['cfg'].get('fac') == 'create' else 'create'
+        cases.append(alt)
     io, mo = BC.run_builds(cases)
     plans = legb.plans_for(cases)
+    ties = []
     wd = legb.Workdir()
     found = {'K1': 0, 'K2': 0, 'K8': 0, 'K9': 0}
     viol = []
     try:
         jobs = []
         for ci, (c, i, m, pl) in enumerate(zip(cases, io, mo, plans)):
+            from checks.shellrun import tie_problem
+            tp = tie_problem(i, m)
+            if tp:
+                ties.append((ci, tp))
             if i[0] != 'ok' or not MM.usable(pl):
                 continue
             files = i[1]
@@ -151,6 +166,9 @@ def main(argv):
     for ci, what in viol[:5]:
         c = cases[ci] if ci is not None else None
         rep.violation('generated C++: ' + what, {'file': c['file'] if c else None, 'configuration': c['cfg'] if c else None})
+    for ci, tp in ties[:3]:
+        if not any(v[0] == ci for v in viol[:5]):
+            rep.violation(f'correspondence legA:Builder.build broken: {tp}', {'file': cases[ci]['file'], 'configuration': cases[ci]['cfg']}, failing_input=False)
     gate = proof_gate('C06')
     return rep.finish(gate, 'generated (model, configuration) pairs incl. a global-namespace encapsulee, an empty interface, a component '
                       'without ports, prefixes; per case: include closure, every header alone, every header twice, shell source, use '
